@@ -27,7 +27,7 @@ LEVEL_TEXT = ('exploration: ~2*10^5 (quick) / ~3*10^6 (thorough) exact pairs on 
               'cospi, expj, expjpi')
 LEVEL_NOTE = 'inputs not generated are not covered; cbrt/root of perfect powers whose root is longer than p bits are observed, not asserted'
 TECHNIQUE = 'runtime exact-oracle monitor on special-case branches (remainder tests, exact half-integer reduction, limit tables)'
-SHARD_TIMEOUT = {'quick': 300, 'thorough': 2400}
+SHARD_TIMEOUT = {'quick': 900, 'thorough': 3600}
 N_SHARDS = 16
 CASES = {'quick': 12000, 'thorough': 200000}
 MODES = G.MODES
